@@ -266,7 +266,7 @@ def cold_chain_run(by_id, chain, envs, *, fuel):
 
 
 def evaluate_program(steps, envs, *, fuel=DEFAULT_FUEL, shims=False, faults=True, only=None,
-                     cold_cache=None, skip_trivial=False, chains=None):
+                     cold_cache=None, skip_trivial=False, chains=None, max_probes=0):
     """Warm run, then every completed producing step (or only ``only``) is compared with its cold run.
 
     ``chains``: None = one fresh fork per probe (cone in program order) when ``only`` is given, chained
@@ -311,6 +311,17 @@ def evaluate_program(steps, envs, *, fuel=DEFAULT_FUEL, shims=False, faults=True
             probes.append({"id": sid, "verdict": "inconclusive", "why": "fuel"})
             continue
         todo.append(rec)
+    if max_probes and len(todo) > max_probes:
+        # long histories: probe the last steps densely (they have the most history behind them) and
+        # the earlier ones sparsely; deterministic, no PRNG
+        tail = max_probes * 2 // 3
+        head = todo[:-tail]
+        stride = max(1, len(head) // (max_probes - tail))
+        kept = head[::stride][: max_probes - tail] + todo[-tail:]
+        for rec in todo:
+            if rec not in kept:
+                probes.append({"id": rec["id"], "verdict": "unsampled"})
+        todo = kept
     # ---- phase 2: cold results ------------------------------------------------------------------
     cold_of = {}
     cached_ids = set()
